@@ -588,10 +588,13 @@ def m_join(ex, callee, args):
 # ----------------------------------------------------------------------
 # HashMap<String, Expression> (rule side; concrete keys)
 
-@model(r'^HashMap::<std::string::String, .*>::get::<')
+@model(r'^HashMap::<std::string::String, .*>::get::<|^(serde_json::)?Map::<std::string::String, .*>::get::<|^serde_yaml::Mapping::get::<')
 def m_map_get(ex, callee, args):
     m = deref_all(args[0])
     k = as_str(args[1])
+    h = getattr(m, 'hashmap_get', None)
+    if h is not None:
+        return h(ex, k)
     if not isinstance(m, MapV) or not isinstance(k, bytes):
         raise Unsupported('HashMap::get on %r / %r' % (m, k))
     i = m.d.get(k)
